@@ -31,6 +31,14 @@ type Obligation struct {
 	NBase  int      // number of hypotheses before axiom/extensionality instances were appended (0: unknown)
 	Smoke  bool     // vacuity query: goal is "false" and the expected answer is NOT unsat
 	Result *Result
+	Alt    *Obligation // skolemised variant with explicit instances of the quantified hypotheses (skolem.go); nil if none
+	prep     func()    // builds Alt (serialised: the generator's term factories are not concurrent)
+	prepOnce sync.Once
+	gensymEnd, skEnd int
+	prepAnte func() // builds the sub-obligations of Alt's antecedent groups (needed by the full skolem stage only)
+	anteOnce sync.Once
+	Ante   []*anteGroup // (of a variant) implications with quantified antecedents, each with the sub-goals that establish the antecedent
+	noAnte bool
 }
 
 type Result struct {
@@ -438,6 +446,10 @@ func discharge(ob *Obligation, tier string, timeoutS int) {
 			}
 		}
 	}
+	// stage 2a: the skolemised variant, instances only (see skolem.go) - a ground query, fast when it works
+	if skolemStage(ob, res, base, tier, false) {
+		return
+	}
 	if tier == "quick" {
 		// stage 1: z3-new alone with a short budget
 		f := write(solvers[0])
@@ -451,6 +463,11 @@ func discharge(ob *Obligation, tier string, timeoutS int) {
 			}
 			return
 		}
+	}
+	// stage 2b/2c: the skolemised variant with the consequents of established antecedents, ground first, then with
+	// the quantified hypotheses kept
+	if skolemStage(ob, res, base, tier, true) {
+		return
 	}
 	// race all
 	ctx, cancel := context.WithCancel(context.Background())
@@ -522,6 +539,175 @@ func discharge(ob *Obligation, tier string, timeoutS int) {
 	res.Status, res.Detail = st, strings.Join(d, " | ")
 }
 
+// skolemStage asks the skolemised variant of ob (an equivalent question, see skolem.go). full == false: only the
+// ground query made of the non-quantified hypotheses and the instances (dropping hypotheses is sound). full == true:
+// first the antecedent groups are established, then the ground query with their consequents, then the query with the
+// quantified hypotheses kept.
+var prepMu sync.Mutex
+
+// stripQuantified returns a quantifier-free consequence of t: quantified sub-formulas in positive positions become
+// true, anything else that contains a quantifier is given up as a whole.
+func stripQuantified(t *Term) *Term {
+	if !isQuantified(t) {
+		return t
+	}
+	switch t.Op {
+	case "and":
+		args := make([]*Term, len(t.Args))
+		for i, a := range t.Args {
+			args[i] = stripQuantified(a)
+		}
+		return And(args...)
+	case "=>":
+		if len(t.Args) == 2 && !isQuantified(t.Args[0]) {
+			return Implies(t.Args[0], stripQuantified(t.Args[1]))
+		}
+	}
+	return tTrue
+}
+
+func skolemStage(ob *Obligation, res *Result, base, tier string, full bool) bool {
+	if ob.prep != nil {
+		ob.prepOnce.Do(func() {
+			prepMu.Lock()
+			defer prepMu.Unlock()
+			// names generated while building the variant depend on the obligation only, not on the order in which the
+			// workers get here (solvers are sensitive to symbol names: the same question must be the same text)
+			saved, savedSk := gensym, skCounter
+			gensym, skCounter = 10_000_000, 0
+			ob.prep()
+			ob.gensymEnd, ob.skEnd = gensym, skCounter
+			gensym, skCounter = saved, savedSk
+		})
+	}
+	if ob.Alt == nil {
+		return false
+	}
+	groundOf := func(hs []*Term) []*Term {
+		var g []*Term
+		for _, h := range hs {
+			if !isQuantified(h) {
+				g = append(g, h)
+			} else if h2 := stripQuantified(h); !h2.IsTrue() {
+				g = append(g, h2)
+			}
+		}
+		return g
+	}
+	done := func(sp solverSpec, secs float64, detail string, agree int) bool {
+		res.Status, res.Solver, res.Seconds, res.Detail = "unsat", sp.name, secs, detail
+		if tier != "quick" && agree < 2 {
+			res.Detail += " single-solver"
+		}
+		stats.mu.Lock()
+		stats.wins[sp.name]++
+		stats.mu.Unlock()
+		return true
+	}
+	ask := func(hyps []*Term, file string, budget int, detail string) bool {
+		_ = os.WriteFile(file, []byte(smtFile(hyps, ob.Alt.Goal, "", false, "")), 0o644)
+		st, _, secs := runSolver(context.Background(), solvers[0], file, budget)
+		if st != "unsat" {
+			return false
+		}
+		agree := 1
+		if tier != "quick" {
+			if st2, _, _ := runSolver(context.Background(), solvers[1], file, budget); st2 == "unsat" {
+				agree = 2
+			}
+		}
+		return done(solvers[0], secs, detail, agree)
+	}
+	if !full {
+		budget := 5
+		if tier != "quick" {
+			budget = 15
+		}
+		return ask(groundOf(ob.Alt.Hyps), base+".skg.smt2", budget, "skolemised, instances only")
+	}
+	budget := 6
+	if tier != "quick" {
+		budget = 30
+	}
+	if ob.prepAnte != nil && len(ob.Alt.Ante) > 0 {
+		ob.anteOnce.Do(func() {
+			prepMu.Lock()
+			defer prepMu.Unlock()
+			saved, savedSk := gensym, skCounter
+			gensym, skCounter = ob.gensymEnd, ob.skEnd
+			ob.prepAnte()
+			gensym, skCounter = saved, savedSk
+		})
+	}
+	altHyps := ob.Alt.Hyps
+	nAnte := 0
+	for _, g := range ob.Alt.Ante {
+		if anteHolds(g, base) {
+			altHyps = append(append([]*Term(nil), altHyps...), g.Qs...)
+			nAnte++
+		}
+	}
+	if nAnte > 0 {
+		if ask(groundOf(altHyps), base+".skga.smt2", budget, fmt.Sprintf("skolemised, instances only, %d antecedent(s) established", nAnte)) {
+			return true
+		}
+	}
+	return ask(altHyps, base+".sk.smt2", budget, fmt.Sprintf("skolemised+instances, %d antecedent(s) established", nAnte))
+}
+
+// anteHolds: every conjunct of the group's antecedent is entailed by the hypotheses. The obligations of one site ask
+// the same sub-questions: each is decided once (single flight) and the sub-questions of a group run concurrently.
+type anteEntry struct {
+	once sync.Once
+	ok   bool
+}
+
+var anteCache sync.Map // query hash -> *anteEntry
+
+func anteHolds(g *anteGroup, base string) bool {
+	results := make([]bool, len(g.Obs))
+	var wg sync.WaitGroup
+	sem := make(chan struct{}, 4)
+	for i, sub := range g.Obs {
+		i, sub := i, sub
+		wg.Add(1)
+		sem <- struct{}{}
+		go func() {
+			defer wg.Done()
+			defer func() { <-sem }()
+			var ground []*Term
+			for _, h := range sub.Hyps {
+				if !isQuantified(h) {
+					ground = append(ground, h)
+				}
+			}
+			gtxt := smtFile(ground, sub.Goal, "", false, "")
+			h := sha256.Sum256([]byte(gtxt))
+			key := fmt.Sprintf("%x", h[:12])
+			e, _ := anteCache.LoadOrStore(key, &anteEntry{})
+			ent := e.(*anteEntry)
+			ent.once.Do(func() {
+				f := fmt.Sprintf("%s.ante%d.%s.smt2", base, i, key[:8])
+				_ = os.WriteFile(f+".g", []byte(gtxt), 0o644)
+				st, _, _ := runSolver(context.Background(), solvers[0], f+".g", 3)
+				if st != "unsat" {
+					_ = os.WriteFile(f, []byte(smtFile(sub.Hyps, sub.Goal, "", false, "")), 0o644)
+					st, _, _ = runSolver(context.Background(), solvers[0], f, 5)
+				}
+				ent.ok = st == "unsat"
+			})
+			results[i] = ent.ok
+		}()
+	}
+	wg.Wait()
+	for _, r := range results {
+		if !r {
+			return false
+		}
+	}
+	return true
+}
+
 func firstLines(s string, n int) string {
 	ls := strings.Split(strings.TrimSpace(s), "\n")
 	if len(ls) > n {
@@ -539,7 +725,13 @@ func dischargeAll(obs []*Obligation, tier string, timeoutS, workers int) {
 		go func() {
 			defer wg.Done()
 			for ob := range ch {
+				t0 := time.Now()
 				discharge(ob, tier, timeoutS)
+				if os.Getenv("STUNVC_TIMING") != "" {
+					if d := time.Since(t0).Seconds(); d > 3 {
+						fmt.Fprintf(os.Stderr, "timing: %.1fs %s [%s]\n", d, ob.Name, ob.Result.Detail)
+					}
+				}
 			}
 		}()
 	}
